@@ -105,6 +105,8 @@ def wait_step_ends_cleanly(state_name):
         check(o.raised_in(rf_exc.BindingError), "a wait that fails raises an error of the binding-error family")
         check(ctx.state is B.DevHasFailedBinding, "after a failed wait the context is in DevHasFailedBinding (no longer binding)")
     check(len(ctx.transitions) == 1, "exactly one state transition per wait")
+    if issubclass(cls, B._DevIsWaitingForMsg):
+        check(st._timer_handle.cancelled, "the state's own wait timer is cancelled when the state is left (nothing is left behind for the next attempt)")
 
 
 PHASES = [B.BindPhase.TENDER, B.BindPhase.ACCEPT, B.BindPhase.AFFIRM, B.BindPhase.RATIFY]
@@ -153,3 +155,41 @@ def phases_are_exclusive(verb):
         if B.BindStateBase.is_phase(f.value, p):
             n += 1
     check(n <= 1, "at most one handshake phase matches a frame")
+
+
+class RecordingState:
+    def __init__(self):
+        self.got = []
+
+    def rcvd_msg(self, msg):
+        self.got.append(msg)
+
+    def send_cmd(self, cmd):
+        self.got.append(cmd)
+
+
+class FakeBindMsg:
+    def __init__(self, code, name):
+        self.code = code
+        self.name = name
+
+    def __eq__(self, other):
+        return self.code == other.code  # (repeats of a frame compare equal)
+
+
+@harness("C20")
+def context_passes_every_binding_packet_on():
+    """BindContextBase.rcvd_msg / sent_cmd hand every 1FC9 / 10E0 message to the current state --
+    repeats included, whatever was received before (RF devices send each frame three times;
+    a retry sends byte-identical frames) -- and nothing else."""
+    st = RecordingState()
+    ctx = new_object(B.BindContext, _state=st, _dev=opaque("dev"), _is_respondent=None)
+    code = sym_choice("code", ["1FC9", "10E0", "30C9"])
+    m1, m2, m3 = FakeBindMsg(code, "first"), FakeBindMsg(code, "repeat"), FakeBindMsg(code, "again, after a failed attempt")
+    for m in (m1, m2, m3):
+        o = outcome(ctx.rcvd_msg, m)
+        check(o.ok, "rcvd_msg does not raise")
+    if code == "30C9":
+        check(st.got == [], "a packet that is not part of a handshake is not passed on")
+    else:
+        check(len(st.got) == 3 and st.got[0] is m1 and st.got[1] is m2 and st.got[2] is m3, "every handshake packet reaches the state, repeats too, in order")
